@@ -21,3 +21,21 @@ Proof. split; reflexivity. Qed.
 (* the guard of cache irrelevance fails when equivalent nodes list their dictionaries in different orders *)
 Example guard_fails : keys_consistent [] (EMul (NInt 1) [(x_plus_y, ei 2); (EFunSym [102%N] [EAdd (NInt 0) [(sx, NInt 1); (sy, NInt 1)]], ei 1)]) = false.
 Proof. vm_compute. reflexivity. Qed.
+
+(* the guard of the soundness theorem: x**2*y + 3*x + (1 + y)**2/2 + 5 with x -> 2, y -> z + 1 (an expression-valued
+   replacement; the result keeps 4*(1 + z) as a term), and the simultaneous swap x <-> y *)
+From SE Require Import C11.SubsGuardedOps.
+Definition e2 : expr :=
+  EAdd (NInt 5) [(EMul (NInt 1) [(sx, ei 2); (sy, ei 1)], NInt 1); (sx, NInt 3); (EPow (EAdd (NInt 1) [(sy, NInt 1)]) (ei 2), NRat 1 2)].
+Example sound_guard_holds : subs_guard KSubs sd1 e2 = true /\ keys_consistent sd1 e2 = true.
+Proof. split; vm_compute; reflexivity. Qed.
+Example sound_result : subs_gen KSubs false sd1 e2 =
+  Ok (EAdd (NInt 11) [(EAdd (NInt 1) [(sz, NInt 1)], NInt 4); (EPow (EAdd (NInt 2) [(sz, NInt 1)]) (ei 2), NRat 1 2)]).
+Proof. vm_compute. reflexivity. Qed.
+Example sound_guard_swap : subs_guard KXreplace [(sx, sy); (sy, sx)] e2 = true.
+Proof. vm_compute. reflexivity. Qed.
+(* the guard rejects an expression-valued key and a negative exponent *)
+Example sound_guard_rejects :
+  subs_guard KSubs [(x_plus_y, sz)] (EMul (NInt 2) [(x_plus_y, ei 1)]) = false /\
+  subs_guard KSubs sd1 (EPow sx (ei (-1))) = false.
+Proof. split; vm_compute; reflexivity. Qed.
